@@ -5,8 +5,12 @@ ROOT = os.path.dirname(os.path.dirname(os.path.abspath(__file__)))
 props = [json.loads(l) for l in open(os.path.join(ROOT, "properties.jsonl"))]
 ids = [p["id"] for p in props]
 specs = {}
+# only properties the lead has accepted (spec/accepted.txt) are claimed; other spec files are work in progress
+accepted = set(open(os.path.join(ROOT, "spec", "accepted.txt")).read().split())
 for sp in sorted(glob.glob(os.path.join(ROOT, "spec", "C*.json"))):
-    s = json.load(open(sp)); specs[s["id"]] = s
+    s = json.load(open(sp))
+    if s["id"] in accepted:
+        specs[s["id"]] = s
 na_path = os.path.join(ROOT, "spec", "not_applicable.json")
 na = json.load(open(na_path)) if os.path.exists(na_path) else {}
 hooks_path = os.path.join(ROOT, "MANIFEST.hooks")
